@@ -192,6 +192,44 @@ def rule_c(ctx, idx, A, errcls):
     ctx.violate("C14.c", con, K.rel(fi), fi.node.lineno, "Program.run contains no loop over the command table that starts commands")
 
 
+def rule_d(ctx, idx, A):
+    """Validation reads attributes of referenced commands before anything runs (before the re-entry guard can fire):
+    they must not recurse along references."""
+    ctx.rule("C14.d", "What validation reads on a referenced command (is_fuzzy, output, ... in ResultParameter.clean) is plain data: no command class turns such an attribute into a property or method that follows its own references to the same attribute of other commands — in a reference cycle that recursion has no re-entry guard and overflows the stack instead of reporting the cycle.")
+    rp = idx.cls("mpilot.params", "ResultParameter")
+    clean = rp.methods.get("clean") if rp else None
+    if clean is None:
+        raise AnalysisError("ResultParameter.clean vanished")
+    val = clean.node.args.args[1].arg
+    read = set()
+    for n in own_nodes(clean.node):
+        if isinstance(n, ast.Attribute) and isinstance(n.ctx, ast.Load) and isinstance(n.value, ast.Name) and n.value.id == val:
+            read.add(n.attr)
+        if isinstance(n, ast.Call) and isinstance(n.func, ast.Name) and n.func.id in ("getattr", "hasattr") and len(n.args) >= 2 and isinstance(n.args[0], ast.Name) and n.args[0].id == val and isinstance(n.args[1], ast.Constant):
+            read.add(n.args[1].value)
+    read -= {"result", A.memo, A.flag}  # `result` is the guarded evaluation itself (C14.a/b); the memo and flag are plain data
+    n = 0
+    for d in K.table(idx):
+        for attr in sorted(read):
+            m = idx.find_method(d.cls, attr)
+            if m is None or m.cls is A.command:
+                continue
+            n += 1
+            sn = K.self_name(m)
+            follows = []
+            for x in own_nodes(m.node):
+                if isinstance(x, ast.Attribute) and x.attr == attr and isinstance(x.ctx, ast.Load) and not (isinstance(x.value, ast.Name) and x.value.id == sn):
+                    follows.append(x)
+                if isinstance(x, ast.Call) and isinstance(x.func, ast.Name) and x.func.id == "getattr" and len(x.args) >= 2 and isinstance(x.args[1], ast.Constant) and x.args[1].value == attr and not (isinstance(x.args[0], ast.Name) and x.args[0].id == sn):
+                    follows.append(x)
+            con = "%s::computed(%s)" % (d.key, attr)
+            ctx.ob("C14.d", con, d.module.rel, m.node.lineno, not follows,
+                   "`%s` is computed without consulting other commands" % attr if not follows else
+                   "`%s` of %s is computed from the `%s` of the command it references (%s): validation reads it before anything runs, so in a cycle of such commands the recursion never reaches the re-entry guard and ends in RecursionError instead of %s" % (attr, d.cls.name, attr, K.src(follows[0])[:60], ERR))
+    ctx.extra["validation_reads"] = sorted(read)
+    ctx.count("computed_validation_attributes", n)
+
+
 def run(ctx, idx):
     A = K.anchors(idx)
     exc_mod = idx.module_of("mpilot.exceptions")
@@ -203,4 +241,5 @@ def run(ctx, idx):
     rule_a(ctx, idx, A, errcls)
     rule_b(ctx, idx, A, errcls)
     rule_c(ctx, idx, A, errcls)
+    rule_d(ctx, idx, A)
     ctx.count("functions", len(idx.funcs))
